@@ -21,6 +21,11 @@ pub struct ApmTag {
 }
 
 impl ApmTag {
+    /// The size of the tag as reported in its header, i.e., without the
+    /// padding at the end of the Rust type.
+    const BASE_SIZE: usize =
+        mem::size_of::<TagHeader>() + mem::size_of::<u32>() + 8 * mem::size_of::<u16>();
+
     /// Creates a new tag.
     #[allow(clippy::too_many_arguments)]
     #[must_use]
@@ -36,7 +41,7 @@ impl ApmTag {
         dseg_len: u16,
     ) -> Self {
         Self {
-            header: TagHeader::new(Self::ID, mem::size_of::<Self>() as u32),
+            header: TagHeader::new(Self::ID, Self::BASE_SIZE as u32),
             version,
             cseg,
             offset,
